@@ -11,7 +11,7 @@
    DESIGN.md C01 Layer C).  Outside the fragment the property is decided per explored program by the extracted
    specs on the real compiler's binary (tools/c01.py): translation validation. *)
 From Coq Require Import ZArith List String Lia.
-From HexVerif Require Import WMap Isa XAst XSem XSemProps XCodegenExpr.
+From HexVerif Require Import WMap Isa XAst XSem XSemProps XCodegenExpr AsmSpec AsmSpecProofs XCodegenBridge.
 Import ListNotations.
 Local Open Scope Z_scope.
 
@@ -57,36 +57,61 @@ Theorem C01_run_deterministic : forall p inp o1 o2, run p inp = o1 -> run p inp 
 Proof. exact run_deterministic. Qed.
 Print Assumptions C01_run_deterministic.
 
-(* (4) PARTIAL (the fragment of Layer C that is proved): expressions built from numbers, global variables and
-   + / - whose right operands are numbers or global variables (what xcmp loads straight into breg), to any
-   depth on the left, including xcmp's folding of constant subtrees.  `cg` is the model of
-   ExprCodeGen/genBinopOperands/genConst/genVar for this fragment (tied to the real xcmp by tools/c01.py, which
-   compares the extracted cg with the instructions of the real compiler's listing on generated expressions).
-   If the X spec evaluates e to n, then the generated code, placed anywhere in memory (code_at: the ISA's own
-   reading of the bytes), run on Isa.step from its first byte with a clear operand register, emits no event,
-   leaves memory unchanged and ends just behind the code with areg = n mod 2^32.
-   Missing for C01_full: spilled right operands (frame temporaries), locals/formals (frame addressing),
-   relational/logical operators, statements, calls, arrays and strings; the layout of whole programs; and
-   the connection of `code_at` to the assembler model (AsmSpecProofs.decode_exec provides it per instruction). *)
+(* (4) PARTIAL (the fragment of Layer C that is proved): expressions built from numbers, global variables, + and -,
+   nested to any depth on both sides, including xcmp's folding of constant subtrees and its spilling of right
+   operands that need areg into frame temporaries.  `cg addr size nslots e RA off` is the model of
+   ExprCodeGen/genBinopOperands/genConst/genVar (with the lowering of frame-base relative operands) for this
+   fragment; tools/c01.py ties it to the real xcmp by comparing the extracted cg with the instructions of the
+   real compiler's listing on generated expressions.
+   If the X spec evaluates e to n, then the generated code, placed anywhere (code_at: the ISA's own reading of
+   the bytes, in every memory that differs from the initial one in frame temporaries only), run on Isa.step from
+   its first byte with a clear operand register, emits no event, ends just behind the code with areg = n mod 2^32,
+   and has changed memory only in temporaries at frame offsets >= off.
+   Hypotheses on the frame: mem[1] = sp; the nslots temporaries sp+size-nslots .. sp+size-1 lie inside memory and
+   are neither word 1 nor a global variable's word.
+   Missing for C01_full: locals/formals (frame addressing of variables), relational/logical operators, statements,
+   calls, arrays and strings; that size/nslots are what xcmp's Frame computes; and the layout of whole programs
+   (that the assembled image holds exactly `cg`'s instructions at consecutive positions: C05's model). *)
 Theorem C01_expr_fragment_partial :
-  forall (addr : string -> option Z) (ge : genv) (m : WMap.t) (e : expr) (code : list instr),
-    cg addr e RA = Some code ->
+  forall (addr : string -> option Z) (ge : genv) (m0 : WMap.t) (sp size nslots : Z),
+    rd m0 1 = sp ->
+    ~ T sp size nslots 1 ->
+    0 <= tlo sp size nslots /\ thi sp size < MEMW ->
+    (forall x a, addr x = Some a -> ~ T sp size nslots a) ->
+    forall (e : expr) (off : Z) (code : list instr),
+    cg addr size nslots e RA off = Some code -> 0 <= off ->
     forall (f : nat) (st : state) (n : Z) (s : state),
     eval f ge e st = Ret (Vint n) s ->
-    env_ok addr ge m st ->
+    env_ok addr ge m0 st ->
     forall (pos nxt a b : Z) (inp : inputs),
-    code_at m pos code nxt -> nxt < W ->
+    code_at (C m0 sp size nslots) pos code nxt -> nxt < W ->
     exists (k : nat) (s' : arch),
-      (forall evs, Isa.run k (mk pos a b 0 m) inp evs = (rev evs, inp, s', Cut)) /\
-      pc s' = nxt /\ areg s' = n mod W /\ oreg s' = 0 /\ mem s' = m.
+      Isa.run k (mk pos a b 0 m0) inp [] = ([], inp, s', Cut) /\
+      pc s' = nxt /\ areg s' = n mod W /\ oreg s' = 0 /\ keeps sp size nslots off m0 (mem s').
 Proof. exact expr_fragment. Qed.
 Print Assumptions C01_expr_fragment_partial.
 
+(* (5) the hypothesis code_at of (4) is what the assembler side delivers: where the ISA's own decoder reads
+   instruction i in an image that every admissible memory holds, instr_at holds (per instruction; code_at
+   chains them). *)
+Theorem C01_instr_at_of_decode : forall (C : WMap.t -> Prop) img pos nxt i,
+  decode img pos = Some (fst (opcode i), snd (opcode i), nxt) ->
+  0 <= pos -> nxt <= W -> (forall m, C m -> holds m img pos nxt) -> instr_at C pos nxt i.
+Proof. exact instr_at_of_decode. Qed.
+Print Assumptions C01_instr_at_of_decode.
+
 (* the fragment is not empty: the model generates xcmp's code for (g + 3) - (2 + 5) ... *)
 Example C01_fragment_nonvacuous :
-  cg (fun x => if String.eqb x "g" then Some 2 else None)
-     (EBin Minus (EBin Plus (EVar "g") (ENum 3)) (EBin Plus (ENum 2) (ENum 5))) RA
+  cg (fun x => if String.eqb x "g" then Some 2 else None) 6 4
+     (EBin Minus (EBin Plus (EVar "g") (ENum 3)) (EBin Plus (ENum 2) (ENum 5))) RA 0
   = Some [LDAM 2; LDBC 3; ADD; LDBC 7; SUB].
+Proof. vm_compute. reflexivity. Qed.
+
+(* ... and the spill scheme for g - (g + 1): right operand first, saved at sp + size - 1, reloaded into breg *)
+Example C01_fragment_spill_nonvacuous :
+  cg (fun x => if String.eqb x "g" then Some 2 else None) 6 4
+     (EBin Minus (EVar "g") (EBin Plus (EVar "g") (ENum 1))) RA 0
+  = Some [LDAM 2; LDBC 1; ADD; LDBM 1; STAI 5; LDAM 2; LDBM 1; LDBI 5; SUB].
 Proof. vm_compute. reflexivity. Qed.
 
 (* Non-vacuity: a program with a global, a function call in an operand and output is well-defined, and the
